@@ -95,7 +95,7 @@ def _weights(cfg):
     else:
         w = {
             "new_coords": 6, "new_shell": 8, "ctor": 3, "new_container": 6, "write_file": 3, "parse": 3,
-            "make_contr": 5, "new_mole": 2, "from_pyscf": 2, "new_iodata": 2, "from_iodata": 3, "update": 9, "scribble": 4,
+            "make_contr": 7, "new_mole": 2, "from_pyscf": 3, "new_iodata": 2, "from_iodata": 3, "update": 9, "scribble": 4,
             "query": 52, "new_instance": 2, "inst_call": 5,
         }
     f = cfg.get("focus")
@@ -390,8 +390,8 @@ def g_fault(rng, cfg, importy=False):
     return None
 
 
-def g_invalid(rng, cfg):
-    if rng.random() < cfg["p_invalid"]:
+def g_invalid(rng, cfg, boost=1.0):
+    if rng.random() < min(0.6, cfg["p_invalid"] * boost):
         return {"arg": rng.randrange(D), "kind": rng.randrange(D)}
     return None
 
@@ -407,7 +407,7 @@ def g_parse(rng, cfg, keep=None):
     if not keep:
         op["env"] = g_env(rng, cfg)
         op["fault"] = g_fault(rng, cfg, importy=True)
-        op["invalid"] = g_invalid(rng, cfg)
+        op["invalid"] = g_invalid(rng, cfg, boost=2.5)
     return op
 
 
@@ -433,7 +433,7 @@ def g_make_contr(rng, cfg, keep=None):
     if not keep:
         op["env"] = g_env(rng, cfg)
         op["fault"] = g_fault(rng, cfg)
-        op["invalid"] = g_invalid(rng, cfg)
+        op["invalid"] = g_invalid(rng, cfg, boost=2.5)
     return op
 
 
@@ -461,7 +461,7 @@ def g_from_pyscf(rng, cfg, keep=None):
     if not keep:
         op["env"] = g_env(rng, cfg)
         op["fault"] = g_fault(rng, cfg)
-        op["invalid"] = g_invalid(rng, cfg)
+        op["invalid"] = g_invalid(rng, cfg, boost=2.5)
     return op
 
 
@@ -507,7 +507,7 @@ def g_from_iodata(rng, cfg, keep=None):
     if not keep:
         op["env"] = g_env(rng, cfg)
         op["fault"] = g_fault(rng, cfg)
-        op["invalid"] = g_invalid(rng, cfg)
+        op["invalid"] = g_invalid(rng, cfg, boost=2.5)
     return op
 
 
